@@ -39,6 +39,31 @@ Theorem goa_request_path_isolated : isolated fp_bodies fp_opaque_writes fp_write
 Proof. apply isolation_checker_sound; vm_compute; reflexivity. Qed.
 Print Assumptions goa_request_path_isolated.
 
+(* Semantic isolation for the request bodies that share only read-only state: the locations
+   that request-phase code may change are those written by an extracted action plus the
+   classified opaque objects other than the ones contracted safe/read-only (WSync). Whatever
+   the data semantics, a request whose access skeleton is one of [fp_isolated_bodies] ends, in
+   every interleaving with any number of requests drawn from the footprint, with exactly the
+   registers it has when it runs alone. *)
+Definition fp_mutable_extra : list nat :=
+  map fst (filter (fun p => match snd p with WSync => false | _ => true end) fp_write_classes).
+Definition fp_isolated_bodies : list thread :=
+  isolated_bodies fp_bodies (written_locs fp_bodies ++ fp_mutable_extra).
+
+Theorem goa_read_only_sharing_bodies_isolated (V : Type) (P : list (vthread V)) init m0 t :
+  t < length P -> length init = length P ->
+  (forall t', t' < length P -> exists b, In b fp_bodies /\ vaccs V (nth t' P []) = accs b) ->
+  (exists b, In b fp_isolated_bodies /\ vaccs V (nth t P []) = accs b) ->
+  forall s, vreach V P init m0 s ->
+  nth t (vrs V s) [] = fst (solo V (nth t P []) (nth t init []) m0 (nth t (vpc V s) 0)).
+Proof. exact (pool_value_isolation V fp_bodies fp_mutable_extra P init m0 t). Qed.
+Print Assumptions goa_read_only_sharing_bodies_isolated.
+
+(* most extracted bodies are of that kind (all generated handler / encoder / decoder closures) *)
+Example footprint_mostly_read_only_sharing :
+  length fp_bodies * 8 <=? length fp_isolated_bodies * 10 = true.
+Proof. vm_compute; reflexivity. Qed.
+
 (* the instance is not vacuous: the extraction saw locations that do need a lock (the
    pattern cache, the sampler's window start) and found the mutex protecting each *)
 Example footprint_has_locked_locations :
